@@ -32,6 +32,7 @@ type tcfgA struct {
 	Lang    int   `json:"lang"`
 	Default bool  `json:"default"`
 	Params0 int64 `json:"params0"`
+	Reorder bool  `json:"reorder,omitempty"` // H264 only: pic_order_cnt_type 0 SPS, real slice headers, B pictures (h264.go)
 }
 
 type unitA struct {
@@ -52,6 +53,8 @@ type auA struct {
 	PPSx      int64   `json:"ppsx,omitempty"`   // H264 / H265: 1 + id of the PPS when it differs from Params (0: same id)
 	VPSx      int64   `json:"vpsx,omitempty"`   // H265: 1 + id of the VPS when it differs from Params
 	RpsArg    int     `json:"rpsarg,omitempty"`
+	Poc       int     `json:"poc,omitempty"`    // H264 with reordering: pic_order_cnt_lsb of the slice header
+	BSlice    bool    `json:"bslice,omitempty"` // H264 with reordering: a B slice
 	Units     []unitA `json:"units"`
 }
 
@@ -90,6 +93,13 @@ var baseSPS = []byte{
 	0x27, 0xe5, 0x84, 0x00, 0x00, 0x03, 0x00, 0x04,
 	0x00, 0x00, 0x03, 0x00, 0xf0, 0x3c, 0x60, 0xc9,
 	0x20,
+}
+
+func spsOfT(t tcfgA, p int64) []byte {
+	if t.Reorder {
+		return h264ReorderSPS(p)
+	}
+	return spsOf(p)
 }
 
 func spsOf(p int64) []byte {
@@ -160,13 +170,15 @@ func concretize(h *history, a *auA) concrete {
 	case kH264:
 		var au [][]byte
 		if a.HasParams {
-			au = append(au, spsOf(a.pset().S), ppsOf(a.pset().P))
+			au = append(au, spsOfT(t, a.pset().S), ppsOf(a.pset().P))
 		}
 		u := a.Units[0]
-		if a.RA {
+		switch {
+		case t.Reorder:
+			au = append(au, h264SliceNALU(a, u, a.RA))
+		case a.RA:
 			au = append(au, append([]byte{0x65}, fill(u.ID, u.Len)...))
-		}
-		if a.NonIDR {
+		case a.NonIDR:
 			au = append(au, append([]byte{0x41}, fill(u.ID, u.Len)...))
 		}
 		c.au = au
@@ -228,7 +240,7 @@ func mkCodecP(t tcfgA, ps pset) codecs.Codec {
 	params := ps.S
 	switch t.Kind {
 	case kH264:
-		return &codecs.H264{SPS: spsOf(ps.S), PPS: ppsOf(ps.P)}
+		return &codecs.H264{SPS: spsOfT(t, ps.S), PPS: ppsOf(ps.P)}
 	case kH265:
 		return &codecs.H265{VPS: h265VPSOf(ps.V), SPS: h265SPSOf(ps.S), PPS: h265PPSOf(ps.P)}
 	case kVP9:
